@@ -106,7 +106,7 @@ def run():
     def add(text, settings, detail, tag):
         nonlocal nid
         nid += 1
-        rows.append({"ev": "compile", "id": nid, "text": text, "serial": SERIAL, "settings": settings, "detail": detail, "tag": tag})
+        rows.append({"ev": "compile", "id": nid, "text": text, "serial": SERIAL, "settings": settings, "detail": detail, "tag": tag, "allowfail": tag == "overlong-line"})
 
     for i in range(40 if thorough else 8):
         add(world_text(rng), GRID_SMALL + (GRID_BUILDER if i % 4 == 0 else []), True, "small")
@@ -119,6 +119,12 @@ def run():
         t = world_text(rng).split("\n")
         t.insert(rng.randrange(len(t)), rng.choice(BAD_LINES))
         add("\n".join(t), GRID_SMALL[:4] + GRID_BUILDER[:1], False, "rejected-line")
+    # a line longer than the scanner's 64 KiB token limit (the codec would accept it): the compilation may refuse the
+    # file, but it must not succeed with a database that silently lacks what follows the line
+    for i in range(4 if thorough else 2):
+        t = world_text(rng).split("\n")
+        t.insert(len(t) // 2, "'long%d.z,%s" % (i, "x" * rng.choice([65536, 70000, 200000])))
+        add("\n".join(t), GRID_SMALL[:4] + GRID_BUILDER[:1], False, "overlong-line")
     os.makedirs(vlib.OUT, exist_ok=True)
     inp, trace = os.path.join(vlib.OUT, "c07-in.ndjson"), os.path.join(vlib.OUT, "c07-trace.ndjson")
     vlib.write_ndjson(inp, rows)
